@@ -309,35 +309,43 @@ class Interp(object):
         return v
 
     def exec_loop(self, fr, n, depth):
+        """First iteration is interpreted precisely from the pre-loop state; further iterations are summarised by
+        havocking every variable the loop assigns (facts are claimed for the first iteration only)."""
         k = n['k']
-        try:
+        if k == 'ForStmt':
+            self.exec(fr, child(n, 'init'), depth)
+        bound = 'T'
+        c0 = child(n, 'cond')
+        c0s = strip(c0) if c0 is not None else None
+        bound_node = None
+        if c0s is not None and c0s['k'] == 'BinaryOperator' and c0s.get('op') in ('<', '!=', '<='):
+            bound_node = c0s
+            bv = self.ev(fr, c0s['c'][1], depth)
+            bound = self.show(bv) if not isinstance(bv, Sym) else str(bv.tag)
+        self.act('LOOP', k, bound, self.off)
+        if k == 'CXXForRangeStmt':
+            self.havoc_assigned(fr, n)
+            self.exec_havoc_body(fr, child(n, 'body'), depth)
+            self.act('ENDLOOP')
+            return
+        enter = True
+        if k != 'DoStmt' and c0 is not None:
+            enter = self.truth(fr, c0, depth, label_hint='LOOP')
+        if enter:
+            try:
+                self.exec(fr, child(n, 'body'), depth)
+            except _LoopExit:
+                pass
+            self.act('ITER1END', self.off)
             if k == 'ForStmt':
-                self.exec(fr, child(n, 'init'), depth)
-            bound = 'T'
-            c0 = child(n, 'cond')
-            c0s = strip(c0) if c0 is not None else None
-            if c0s is not None and c0s['k'] == 'BinaryOperator' and c0s.get('op') in ('<', '!=', '<='):
-                bv = self.ev(fr, c0s['c'][1], depth)
-                bound = self.show(bv) if not isinstance(bv, Sym) else str(bv.tag)
-            self.act('LOOP', k, bound, self.off)
-            if k == 'CXXForRangeStmt':
-                self.havoc_assigned(fr, n)
-                self.exec_havoc_body(fr, child(n, 'body'), depth)
-                self.act('ENDLOOP')
-                return
-            cond = child(n, 'cond')
-            enter = True
-            if k != 'DoStmt' and cond is not None:
-                enter = self.truth(fr, cond, depth, label_hint='LOOP')
-            if enter:
-                self.havoc_assigned(fr, n)
-                try:
-                    self.exec(fr, child(n, 'body'), depth)
-                except _LoopExit:
-                    pass
-                self.havoc_assigned(fr, n)
-        finally:
-            pass
+                inc = child(n, 'inc')
+                if inc is not None:
+                    self.ev(fr, inc, depth)
+            if bound_node is not None:
+                lv = self.ev(fr, bound_node['c'][0], depth)
+                self.act('LOOPNEXT', self.show(lv) if not isinstance(lv, Sym) else str(lv.tag), bound)
+            self.havoc_assigned(fr, n)
+            self.model.after_loop(self, fr, n)
         self.act('ENDLOOP')
 
     def exec_havoc_body(self, fr, body, depth):
@@ -727,6 +735,8 @@ class Interp(object):
             return int_conv(v + delta, t)
         if isinstance(delta, Pos):
             return self.add(delta, v, t)
+        if isinstance(v, Sym):
+            return self.model.arith(self, None, None, '+', v, delta)
         return TOP
 
     def ev_binary(self, fr, n, depth):
@@ -949,3 +959,6 @@ class Model(object):
 
     def primitive(self, it, fr, n, callee, depth):
         return NotImplemented
+
+    def after_loop(self, it, fr, n):
+        pass
